@@ -34,6 +34,12 @@ uninterp spec fn abs(p: PathBuf) -> PathBuf;
 uninterp spec fn spec_join(dir: PathBuf, name: Seq<char>) -> PathBuf;
 uninterp spec fn spec_to_str(p: PathBuf) -> Option<Seq<char>>;
 uninterp spec fn spec_is_dir(p: PathBuf) -> bool;
+uninterp spec fn spec_is_file(p: PathBuf) -> bool;
+uninterp spec fn spec_exists(p: PathBuf) -> bool;
+uninterp spec fn spec_file_name(p: PathBuf) -> Option<&'static OsString>;
+uninterp spec fn spec_extension(p: PathBuf) -> Option<&'static OsString>;
+uninterp spec fn spec_parent(p: PathBuf) -> Option<&'static PathBuf>;
+uninterp spec fn spec_os_str(p: PathBuf) -> OsString;
 // utils::parse_shard_filename at specification level.  It is string / regex code (`^[0-9a-fA-F]{64}\.mdb$` on the last path
 // component, then from_hex) that Verus cannot reason about: left UNINTERPRETED, assumed on the stub `parse_shard_filename`.
 //   name_parses(s): the result for the string s;   path_hash(p): the result for the path p (the same function, U-SHWRITEOUT's name)
@@ -59,7 +65,24 @@ impl PathBuf {
     #[verifier::external_body]
     fn as_ref(&self) -> (r: &PathBuf) ensures *r == *self { unimplemented!() }
     #[verifier::external_body]
-    fn is_dir(&self) -> (r: bool) ensures r == spec_is_dir(*self) { unimplemented!() }
+    fn is_dir(&self) -> (r: bool) ensures r == spec_is_dir(*self), r ==> !spec_is_file(*self) && spec_exists(*self) { unimplemented!() }
+    // the other std::path queries an edit may plausibly use (none is called on HEAD).  `is_file` / `exists` are tied to the directory
+    // model (`listing_consistent`: entry n of d is a regular file iff `spec_is_file(abs(d/n))`; a path is never both file and directory);
+    // the rest are uninterpreted functions of the path.
+    #[verifier::external_body]
+    fn is_file(&self) -> (r: bool) ensures r == spec_is_file(*self), r ==> !spec_is_dir(*self) && spec_exists(*self) { unimplemented!() }
+    #[verifier::external_body]
+    fn exists(&self) -> (r: bool) ensures r == spec_exists(*self), (spec_is_file(*self) || spec_is_dir(*self)) ==> r { unimplemented!() }
+    #[verifier::external_body]
+    fn file_name(&self) -> (r: Option<&OsString>) ensures r == spec_file_name(*self) { unimplemented!() }
+    #[verifier::external_body]
+    fn extension(&self) -> (r: Option<&OsString>) ensures r == spec_extension(*self) { unimplemented!() }
+    #[verifier::external_body]
+    fn parent(&self) -> (r: Option<&PathBuf>) ensures r == spec_parent(*self) { unimplemented!() }
+    #[verifier::external_body]
+    fn to_path_buf(&self) -> (r: PathBuf) ensures r == *self { unimplemented!() }
+    #[verifier::external_body]
+    fn as_os_str(&self) -> (r: &OsString) ensures *r == spec_os_str(*self) { unimplemented!() }
     #[verifier::external_body]
     fn to_str(&self) -> (r: Option<&str>)
         ensures match r { Some(s) => spec_to_str(*self) == Some(s@), None => spec_to_str(*self) is None }
@@ -111,6 +134,7 @@ uninterp spec fn info_of(bytes: Seq<u8>) -> MDBShardInfo;
 // the listing and the files agree: the entry called n in directory d is the file abs(d/n)
 spec fn listing_consistent(d: PathBuf, ents: Seq<DirEnt>) -> bool {
     forall|i: int| 0 <= i < ents.len() ==> spec_content(abs(spec_join(d, (#[trigger] ents[i]).name))) == ents[i].content
+        && spec_is_file(abs(spec_join(d, ents[i].name))) == ents[i].is_file
 }
 struct OsString { name: Ghost<Seq<char>>, utf8: Ghost<bool> }
 impl OsString {
@@ -364,7 +388,12 @@ impl Vx_load_all_closure1 {
 }
 impl VxCallback for Vx_load_all_closure1 {
     spec fn seen(&self) -> Seq<Arc<MDBShardFile>> { self.seen@ }
-    spec fn wf(&self) -> bool { self.ret@ == kept_onto(self.ret0@, self.seen@, self.current_time, self.load_expired) }
+    spec fn wf(&self) -> bool {
+        &&& self.ret@ == kept_onto(self.ret0@, self.seen@, self.current_time, self.load_expired)
+        // everything the closure has added so far passed the expiry filter (C18, whatever `scan_impl` applied it to)
+        &&& self.ret0@.len() <= self.ret@.len()
+        &&& forall|j: int| self.ret0@.len() <= j < self.ret@.len() ==> keep(*#[trigger] self.ret@[j], self.current_time, self.load_expired)
+    }
     type Env = (bool, u64, Seq<Arc<MDBShardFile>>);
     #[verifier::prophetic]
     spec fn env(&self) -> (bool, u64, Seq<Arc<MDBShardFile>>) { (self.load_expired, self.current_time, self.ret0@) }
@@ -469,6 +498,9 @@ impl MDBShardFile {
             // handles of ALL of them, in listing order), minus those past their expiry (unless expired ones were asked for)
             /*@C11,C19,C18,C10*/ (spec_is_dir(*path) && r is Ok) ==> exists|hs: Seq<Arc<MDBShardFile>>|
                 #[trigger] scan_from(*path, dir_entries(*path), dir_entries(*path).len(), Seq::empty(), hs) && r->Ok_0@ == kept_onto(Seq::empty(), hs, spec_now(), load_expired),
+            // C18, for EVERY shape of `path` (directory, single file, anything else): no returned shard is past its expiry unless expired
+            // shards were asked for
+            /*@C18*/ r matches Ok(v) ==> forall|j: int| 0 <= j < v@.len() ==> keep(*#[trigger] v@[j], spec_now(), load_expired),
             // entries that are not shard files never make it fail
             /*@C19,C11*/ spec_is_dir(*path) ==> (r matches Err(e) ==> vx_genuine(e)),
 //@ end
@@ -480,6 +512,7 @@ impl MDBShardFile {
             // = load_all without the expired ones: a shard past its expiry is not loaded (C18); every other shard file of the directory is (C11)
             /*@C11,C19,C18,C10*/ (spec_is_dir(*path) && r is Ok) ==> exists|hs: Seq<Arc<MDBShardFile>>|
                 #[trigger] scan_from(*path, dir_entries(*path), dir_entries(*path).len(), Seq::empty(), hs) && r->Ok_0@ == kept_onto(Seq::empty(), hs, spec_now(), false),
+            /*@C18*/ r matches Ok(v) ==> forall|j: int| 0 <= j < v@.len() ==> !past_expiry(spec_now(), (#[trigger] v@[j]).shard.metadata.shard_key_expiry),
             /*@C19,C11*/ spec_is_dir(*path) ==> (r matches Err(e) ==> vx_genuine(e)),
 //@ end
 
@@ -504,7 +537,7 @@ impl MDBShardFile {
         requires /*@AUX*/ spec_to_str(*path) is Some,      // `path.to_str().unwrap()`: a path without string form is a panic (see notes)
         ensures
             // a handle only for a shard file name, with the hash the name spells; any other name is a BadFilename error
-            /*@C10*/ r matches Ok(sf) ==> Some(sf.shard_hash) == name_parses(spec_to_str(*path)->Some_0) && sf.path == abs(*path),
+            /*@C10*/ r matches Ok(sf) ==> Some(sf.shard_hash) == name_parses(spec_to_str(*path)->Some_0) && sf.path == abs(*path) && sf.shard == info_of(spec_content(abs(*path))),
             /*@C10*/ name_parses(spec_to_str(*path)->Some_0) is None ==> r matches Err(MDBShardError::BadFilename(_)),
             name_parses(spec_to_str(*path)->Some_0) is Some ==> (r matches Err(e) ==> vx_genuine(e)),
 //@ body-start
